@@ -377,7 +377,21 @@ func genSpec(r *hlib.Rand, seed uint64, idx, steps int, focus string) Spec {
 			g.add(Op{K: "recv", Chain: pr[1], Pkt: k, Relayer: 0, FreshProof: true, Commit: true})
 			g.add(Op{K: "ack", Chain: pr[0], Ack: k, Relayer: 0, FreshProof: true, Commit: true})
 		}
-	case idx == 1 && (focus == "c04" || focus == "c05"):
+	case idx == 1 && focus == "c05":
+		// corpus: O7, replay of an acknowledgement.  The self-named TSS client lets a copy of the already
+		// acknowledged packet through the relay branch of Keeper.RecvPacket, which re-creates commitment
+		// (A,B,1) with the same hash; the same MsgAcknowledgement is then offered again.
+		s.O7 = true
+		g.add(Op{K: "create_client", Chain: 0, Name: "self", Type: "tss"}) // + reg_relayer step (peers kept)
+		g.add(Op{K: "send", Chain: 0, Dst: 1, Variant: "erc20", Amount: 100, Fee: 3, Commit: true})
+		g.add(Op{K: "update", Chain: 1, Peer: 0, Relayer: 0, Commit: true})
+		g.add(Op{K: "recv", Chain: 1, Pkt: 0, Relayer: 0, FreshProof: false, Commit: true})
+		g.add(Op{K: "update", Chain: 0, Peer: 1, Relayer: 0, Commit: true})
+		g.add(Op{K: "ack", Chain: 0, Ack: 0, Relayer: 0, FreshProof: false, Commit: true})
+		g.add(Op{K: "recv_tss", Chain: 0, Variant: "copy", Pkt: 0, Relayer: 0, Commit: true})
+		g.add(Op{K: "ack", Chain: 0, Ack: 0, Relayer: 0, FreshProof: true, Commit: true})
+		g.add(Op{K: "ack", Chain: 0, Ack: 0, Relayer: 0, FreshProof: true, Commit: true})
+	case idx == 1 && focus == "c04":
 		// corpus: the O7 witness
 		s.O7 = true
 		g.add(Op{K: "create_client", Chain: 0, Name: "self", Type: "tss"})
